@@ -15,6 +15,7 @@ import (
 	"github.com/tsuna/gohbase/hrpc"
 	"github.com/tsuna/gohbase/region"
 	"github.com/tsuna/gohbase/zk"
+	"modernc.org/b/v2"
 )
 
 // VRegionClientFn is the region-client factory signature.
@@ -92,8 +93,14 @@ func VNewScanner(c RPCClient, s *hrpc.Scan, l *slog.Logger) hrpc.Scanner {
 // VCache gives direct access to the location cache of a fresh client.
 type VCache struct{ c *client }
 
+var vQuiet = slog.New(slog.NewTextHandler(io.Discard, nil))
+
 func VNewCache() *VCache {
-	return &VCache{c: newClient("sim", Logger(slog.New(slog.NewTextHandler(io.Discard, nil))))}
+	c := &client{clientType: region.RegionClient, logger: vQuiet}
+	c.metaRegionInfo = region.NewInfo(0, []byte("hbase"), []byte("meta"), []byte("hbase:meta,,1"), nil, nil)
+	c.regions = keyRegionCache{logger: vQuiet, regions: b.TreeNew[[]byte, hrpc.RegionInfo](region.Compare)}
+	c.clients = clientRegionCache{logger: vQuiet, regions: make(map[hrpc.RegionClient]map[hrpc.RegionInfo]struct{})}
+	return &VCache{c: c}
 }
 func (v *VCache) Put(r hrpc.RegionInfo) ([]hrpc.RegionInfo, bool) { return v.c.regions.put(r) }
 func (v *VCache) Del(r hrpc.RegionInfo) bool                      { return v.c.regions.del(r) }
